@@ -28,7 +28,11 @@ META = {
              ">= 2 scales and a repeated step; distinct by the whole case. "
              "Most cases run in-process through main(argv) with atexit "
              "handlers captured per command; a sample runs as real "
-             "subprocesses."),
+             "subprocesses."
+             ' Also: dataset locations spelled as plain paths / trailing s'
+             'lash / file:// / percent-encoded URLs, magic-number voxels a'
+             't a chunk origin, half of the subprocess cases with PYTHONOP'
+             'TIMIZE=1.'),
     "trusted_base": ["nibabel (input files)", "vlib/datasets.read_scale"],
     "assumptions": ["RGB inputs and --sharding are outside the all-in-one "
                     "command's options: sharded programs only take part in "
